@@ -192,7 +192,14 @@ pub fn build(fen4: &str) -> Result<Board, String> {
         let b = f[3].as_bytes();
         Some((b[0] - b'a') + 8 * (b[1] - b'1'))
     };
-    let board = build_from(&cs, f[1] == "w", if f[2] == "-" { "" } else { f[2] }, ep);
+    let mut board = build_from(&cs, f[1] == "w", if f[2] == "-" { "" } else { f[2] }, ep);
+    // optional move counters (fields 5 and 6): the same position with another game clock
+    if f.len() >= 6 {
+        if let (Ok(h), Ok(m)) = (f[4].parse::<u16>(), f[5].parse::<u16>()) {
+            board.halfmove_clock = h as _;
+            board.fullmove_counter = m as _;
+        }
+    }
     let back = project(&board);
     if back != f[..4].join(" ") {
         return Err(format!("round trip '{}' -> '{}'", fen4, back));
